@@ -192,35 +192,67 @@ pub fn run(out: &mut Out, tier: &str, seed: u64) {
 /// variables — through the real front end, lowering, emitter and rustc, executed.
 fn compiled(out: &mut Out, rng: &mut Rng, tier: &str) {
     use crate::runner::{self, Case, Outcome};
-    let n_prog = if tier == "thorough" { 60 } else { 14 };
+    let n_prog = if tier == "thorough" { 90 } else { 24 };
     let ints: [i64; 10] = [7, -7, 2, -2, 3, -3, 1, 10, -10, 0];
     let floats: [f64; 10] = [7.5, -7.5, 2.0, -2.0, 0.5, -0.5, 3.0, 1.25, -10.0, 0.0];
     struct C { form: &'static str, op: &'static str, a: Num, b: Num }
     let mut programs: Vec<(Vec<C>, String)> = Vec::new();
-    for pi in 0..n_prog {
+    // the grid: every operator x operand spelling x sign combination x operand kinds, no zero divisor
+    let mut grid: Vec<(&'static str, &'static str, Num, Num)> = Vec::new();
+    for op in ["pydiv", "pyfloordiv", "pymod"] {
+        for form in ["bin", "lib", "lia", "aug", "alb"] {
+            for (x, y) in [(7i64, 2i64), (-7, 2), (7, -2), (-7, -2), (-9, 4), (6, 3)] {
+                for (ai, bi) in [(true, true), (true, false), (false, true), (false, false)] {
+                    if (form == "aug" || form == "alb") && ai && !(bi && op != "pydiv") { continue; }
+                    let a = if ai { Num::I(x) } else { Num::F(x as f64 + 0.5) };
+                    let b = if bi { Num::I(y) } else { Num::F(y as f64) };
+                    grid.push((op, form, a, b));
+                }
+            }
+        }
+    }
+    let per = 12;
+    let n_grid = if tier == "thorough" { grid.len().div_ceil(per) } else { grid.len().div_ceil(per) };
+    for pi in 0..(n_prog + n_grid) {
         let mut cases: Vec<C> = Vec::new();
         let mut body = String::new();
-        let k = 6;
+        let from_grid: Vec<(&'static str, &'static str, Num, Num)> =
+            if pi >= n_prog { grid.iter().skip((pi - n_prog) * per).take(per).cloned().collect() } else { Vec::new() };
+        let k = if pi >= n_prog { from_grid.len() } else { 6 };
         for ci in 0..k {
             let last = ci == k - 1;
-            let op = *rng.pick(&["pydiv", "pyfloordiv", "pymod"]);
-            let a_int = rng.chance(1, 2);
-            let b_int = rng.chance(1, 2);
+            let op = if pi >= n_prog { from_grid[ci].0 } else { *rng.pick(&["pydiv", "pyfloordiv", "pymod"]) };
+            let a_int = if pi >= n_prog { matches!(from_grid[ci].2, Num::I(_)) } else { rng.chance(1, 2) };
+            let b_int = if pi >= n_prog { matches!(from_grid[ci].3, Num::I(_)) } else { rng.chance(1, 2) };
             // compound forms keep the variable's type: an int variable only takes `//=` / `%=` with an int operand
             let aug_ok = if a_int { b_int && op != "pydiv" } else { true };
-            let form = if aug_ok && (pi + ci) % 2 == 0 { "aug" } else { "bin" };
+            // operand spelling: both variables, or the right / left operand written as a literal in the expression
+            // (the emitter may plan a literal operand differently from a variable)
+            let form = match (aug_ok && (pi + ci) % 2 == 0, (pi * 7 + ci) % 3) {
+                (true, 0) => "alb",
+                (true, _) => "aug",
+                (false, 0) => "lib",
+                (false, 1) => "lia",
+                (false, _) => "bin",
+            };
+            let form = if pi >= n_prog { from_grid[ci].1 } else { form };
             let a = if a_int { Num::I(*rng.pick(&ints)) } else { Num::F(*rng.pick(&floats)) };
             // only the last case of a program may have a zero divisor (it stops the program)
-            let zero = last && rng.chance(1, 2);
+            let zero = pi < n_prog && last && rng.chance(1, 2);
             let b = if b_int { Num::I(if zero { 0 } else { *rng.pick(&ints[..9]) }) } else { Num::F(if zero { 0.0 } else { *rng.pick(&floats[..9]) }) };
+            let (a, b) = if pi >= n_prog { (from_grid[ci].2, from_grid[ci].3) } else { (a, b) };
             let lit = |x: Num| match x { Num::I(i) => if i < 0 { format!("0 - {}", -i) } else { i.to_string() }, Num::F(f) => if f < 0.0 || (f == 0.0 && f.is_sign_negative()) { format!("0.0 - {:?}", -f) } else { format!("{f:?}") } };
             let ty = |x: Num| match x { Num::I(_) => "int", Num::F(_) => "float" };
             let sym = match op { "pydiv" => "/", "pyfloordiv" => "//", _ => "%" };
             body.push_str(&format!("    mut a{ci}: {} = {}\n    b{ci}: {} = {}\n", ty(a), lit(a), ty(b), lit(b)));
-            if form == "aug" {
-                body.push_str(&format!("    a{ci} {sym}= b{ci}\n    println(a{ci})\n"));
-            } else {
-                body.push_str(&format!("    r{ci} = a{ci} {sym} b{ci}\n    println(r{ci})\n"));
+            // a literal operand as it is written in source: `-2`, `2.5`, `-0.0`
+            let src_lit = |x: Num| match x { Num::I(i) => i.to_string(), Num::F(f) => format!("{f:?}") };
+            match form {
+                "aug" => body.push_str(&format!("    a{ci} {sym}= b{ci}\n    println(a{ci})\n")),
+                "alb" => body.push_str(&format!("    a{ci} {sym}= {}\n    println(a{ci})\n", src_lit(b))),
+                "lib" => body.push_str(&format!("    r{ci} = a{ci} {sym} {}\n    println(r{ci})\n", src_lit(b))),
+                "lia" => body.push_str(&format!("    r{ci} = {} {sym} b{ci}\n    println(r{ci})\n", src_lit(a))),
+                _ => body.push_str(&format!("    r{ci} = a{ci} {sym} b{ci}\n    println(r{ci})\n")),
             }
             cases.push(C { form, op, a, b });
         }
